@@ -6,6 +6,10 @@ package workceptor
 import (
 	"fmt"
 	"os"
+	"strconv"
+	"strings"
+	"sync"
+	"syscall"
 )
 
 // verifStatusWrite appends one line per rewrite of a status record to the file named by $VERIF_STATUS_LOG:
@@ -25,4 +29,49 @@ func verifStatusWrite(filename string, oldState int, oldSize int64, newState int
 	}
 	defer f.Close()
 	fmt.Fprintf(f, "%d %s %d %d %d %d\n", os.Getpid(), filename, oldState, oldSize, newState, newSize)
+}
+
+var (
+	verifCrashLock   sync.Mutex
+	verifCrashCounts = map[string]int{}
+)
+
+// verifCrashPoint kills the calling process with SIGKILL at the n-th time the named point is reached, when
+// $VERIF_CRASH is "role:point:n" and the process has that role ("runner" for the command-runner process, "daemon"
+// otherwise). A line "pid role point" is appended to $VERIF_CRASH_LOG just before. Build tag "verif" only.
+func verifCrashPoint(point string) {
+	spec := os.Getenv("VERIF_CRASH")
+	if spec == "" {
+		return
+	}
+	parts := strings.SplitN(spec, ":", 3)
+	if len(parts) != 3 || parts[1] != point {
+		return
+	}
+	role := "daemon"
+	for _, a := range os.Args {
+		if a == "--command-runner" {
+			role = "runner"
+		}
+	}
+	if parts[0] != role {
+		return
+	}
+	n, _ := strconv.Atoi(parts[2])
+	verifCrashLock.Lock()
+	verifCrashCounts[point]++
+	hit := verifCrashCounts[point] == n
+	verifCrashLock.Unlock()
+	if !hit {
+		return
+	}
+	if logName := os.Getenv("VERIF_CRASH_LOG"); logName != "" {
+		if f, err := os.OpenFile(logName, os.O_APPEND|os.O_CREATE|os.O_WRONLY, 0o600); err == nil {
+			fmt.Fprintf(f, "%d %s %s\n", os.Getpid(), role, point)
+			_ = f.Sync()
+			f.Close()
+		}
+	}
+	_ = syscall.Kill(os.Getpid(), syscall.SIGKILL)
+	select {}
 }
